@@ -286,16 +286,29 @@ Definition m_string (x : str) : option (str * str) :=
 (* t_parn_css_uri: the fragment only decides that the rule does NOT match (the lexeme starts with a character
    no alternative can start with, or is a plain name with no '.', '/', ':' continuation); anything that might
    be an unquoted URL makes the model abstain *)
+Definition is_uri1 (c : ascii) := is_alpha c || ch_eqb c "." || ch_eqb c ":".                 (* [\.a-z:] *)
+Definition is_uri2 (c : ascii) := is_wordch c || ch_eqb c "." || ch_eqb c ":".                (* [\w\.:] *)
 Definition uri_verdict (x : str) : mres :=
   match x with
   | c :: _ =>
-      if ch_eqb c "/" && match x with _ :: c1 :: _ => negb (is_alpha c1 || ch_eqb c1 "." || ch_eqb c1 ":") | _ => true end then MNone
-      else if is_alpha c || ch_eqb c "/" || ch_eqb c "." || ch_eqb c ":" then
+      if is_alpha c then
+        (* [a-z]+:// , path segments, name.ext : anything that continues with . / : \ may be an unquoted URL *)
         let '(w, rest) := span (fun c => is_wordch c || ch_eqb c "-") x in
         match rest with
-        | c2 :: _ => if ch_eqb c2 "." || ch_eqb c2 "/" || ch_eqb c2 ":" || ch_eqb c2 "\" then MUnsupported
-                     else if is_alpha c then MNone else MUnsupported
-        | [] => if is_alpha c then MNone else MUnsupported
+        | c2 :: _ => if ch_eqb c2 "." || ch_eqb c2 "/" || ch_eqb c2 ":" || ch_eqb c2 "\" then MUnsupported else MNone
+        | [] => MNone
+        end
+      else if ch_eqb c "/" || ch_eqb c "." || ch_eqb c ":" then
+        (* only  /?[\.a-z:]+[\w\.:]*[\\/]  can start here: decided exactly (the runs never contain a slash, so no backtracking helps) *)
+        let x1 := if ch_eqb c "/" then tl x else x in
+        let '(r1, rest1) := span is_uri1 x1 in
+        match r1 with
+        | [] => MNone
+        | _ => let '(_, rest2) := span is_uri2 rest1 in
+               match rest2 with
+               | d :: _ => if ch_eqb d "/" || ch_eqb d "\" then MUnsupported else MNone
+               | [] => MNone
+               end
         end
       else MNone
   | [] => MNone
